@@ -340,7 +340,8 @@ Qed.
 End Wf.
 
 (* the compiled parse_width meets its specification wherever the check on the regenerated table
-   says so: all largest discriminants 0..255, no attribute or #[bits(0..9)] *)
+   says so: all largest discriminants 0..255, no attribute or #[bits(0..8)] (a declared width above 8
+   cannot be honoured by a u8 codec; whether it is rejected is not part of the property) *)
 Lemma width_tables_sound none attr :
   width_tables_ok none attr = true ->
   forall a m, (m < 256)%N -> match a with Some w => (w <= 8)%N | None => True end ->
@@ -350,7 +351,7 @@ Proof.
   rewrite forallb_forall in H1, H2.
   assert (Hin : In m bytes256) by (apply bytes256_in; exact Hm).
   destruct a as [w|].
-  - assert (Hw : In w (map N.of_nat (seq 0 10))).
+  - assert (Hw : In w (map N.of_nat (seq 0 9))).
     { apply in_map_iff. exists (N.to_nat w). split; [apply N2Nat.id|]. apply in_seq. lia. }
     specialize (H2 w Hw). rewrite forallb_forall in H2. specialize (H2 m Hin).
     destruct (width_of_tables none attr (Some w) m), (width_spec (Some w) m); cbn in H2;
